@@ -108,3 +108,24 @@ Definition fuel_bound (D : N) : nat := N.to_nat (bound D).
 Definition store_step (st c : hdr) : hdr :=
   if h_height c =? wrap64 (h_height st + 1) then c else st.
 Definition store_after (st : hdr) (promoted : list hdr) : hdr := fold_left store_step promoted st.
+
+(** several candidates delivered to one Syncer, each with the getter as it behaves during that
+    delivery: the Syncer keeps no memory of earlier candidates -- a delivery is [incoming] on the
+    subjective head the earlier ones left, nothing else is carried over *)
+Definition delivery : Type := (nat -> N -> option hdr) * nat * hdr.   (* getter, fuel, candidate *)
+
+Fixpoint deliveries (now drift : Z) (tv : hdr -> hdr -> tvres) (subj : hdr) (l : list delivery) : list brun :=
+  match l with
+  | [] => []
+  | (get, fuel, new) :: rest =>
+    let r := incoming now drift tv get fuel subj new in
+    r :: deliveries now drift tv (head_after subj r) rest
+  end.
+
+(** the subjective head after a sequence of deliveries *)
+Fixpoint head_after_all (now drift : Z) (tv : hdr -> hdr -> tvres) (subj : hdr) (l : list delivery) : hdr :=
+  match l with
+  | [] => subj
+  | (get, fuel, new) :: rest =>
+    head_after_all now drift tv (head_after subj (incoming now drift tv get fuel subj new)) rest
+  end.
